@@ -5,24 +5,30 @@
 (*   on_deferred_result, extract_result            (_deferred.py)          *)
 (* over one twisted Deferred.                                              *)
 (*                                                                         *)
-(* The Deferred is modelled as Twisted defines it: a current result        *)
-(* (`fired` in no/ok/err, `val`), a chain of callbacks waiting while it is *)
-(* unfired (`cbs`) and run at once when it has fired, and the `handled`    *)
-(* flag (Twisted logs "Unhandled error in Deferred" at garbage collection  *)
-(* iff the current result is still a Failure).                             *)
+(* The Deferred is modelled as Twisted defines it (Deferred._runCallbacks):*)
+(* whether callback()/errback() has been called (`d.fired` # "no"), the    *)
+(* stored result (`d.fired`, `d.val`), the callbacks not yet run (`cbs`),  *)
+(* the user's pause() count (`paused`), whether the chain is waiting on an *)
+(* inner, still unfired Deferred that an earlier callback returned         *)
+(* (`wait`), and the `handled` flag (Twisted logs "Unhandled error in      *)
+(* Deferred" at garbage collection iff the last time the chain ran to its  *)
+(* end the result was a Failure).  Callbacks run only while the Deferred   *)
+(* is neither paused nor waiting; a Deferred can therefore have been FIRED *)
+(* and still have NO RESULT AVAILABLE.                                     *)
 (*                                                                         *)
 (* MECHANISM: Match(m) follows the code - on_deferred_result attaches a    *)
-(* pair of capture callbacks ("cap") that return their argument, then      *)
-(* dispatches on what they captured to the matcher class's on_success /    *)
-(* on_failure / on_no_result handler; _Succeeded._got_failure and          *)
-(* _Failed._got_failure attach an errback that swallows the failure        *)
-(* ("eat").  MEANING: `Means(m, st)` says directly from the Deferred's     *)
-(* state when a matcher must match.  The invariants relate the two in      *)
+(* pair of capture callbacks ("cap") that return their argument and looks  *)
+(* at what they captured (nothing, if they have not run), then dispatches  *)
+(* to the matcher class's on_success / on_failure / on_no_result handler;  *)
+(* _Succeeded._got_failure and _Failed._got_failure attach an errback that *)
+(* swallows the failure ("eat").  MEANING: `Means(m, v)` says from the     *)
+(* result currently AVAILABLE (`View`: not from whether callback() was     *)
+(* called) when a matcher must match.  The invariants relate the two in    *)
 (* every reachable state and across every Match step.                      *)
 (*                                                                         *)
 (* After a failure has been swallowed the Deferred's value is whatever the *)
 (* implementation's errback returned: the property does not say, so the    *)
-(* model uses the wildcard value AnyV (and verdict "either" where a matcher *)
+(* model uses the wildcard value AnyV (and verdict "either" where a matcher*)
 (* would look at it).  extract_result replaces the result (its callbacks   *)
 (* return None): the property says nothing about the Deferred afterwards,  *)
 (* so Extract ends the behaviour.                                          *)
@@ -32,14 +38,18 @@ EXTENDS Naturals, Sequences, FiniteSets, TLC, Json
 CONSTANTS
     Values,      \* values a Deferred may fire with (set of 1-tuples of strings, e.g. <<"None">>)
     Excs,        \* exceptions it may fail with          (e.g. <<"e1">>)
-    CbKinds,     \* user callbacks: subset of {"pass", "trans", "rec"}
+    CbKinds,     \* user callbacks: subset of {"pass", "trans", "rec", "chain"}
     SuccInner,   \* inner matchers for succeeded(): subset of {"always","never","eqNone","eqOne","eqNest"}
     FailInner,   \* inner matchers for failed():    subset of {"always","never","isE1","isE2"}
     WithNoResult,\* BOOLEAN: include has_no_result()
     WithExtract, \* BOOLEAN: include extract_result()
+    MaxPause,    \* bound on nested d.pause() calls (0: no Pause/Unpause actions)
+    MaxChain,    \* bound on "chain" callbacks added per behaviour
+    InnerValues, \* what an inner Deferred (returned by a "chain" callback) may fire with
+    InnerExcs,   \* ... or fail with
     MaxLen       \* number of actions per behaviour
 
-AnyV   == <<"any">>
+AnyV  == <<"any">>
 NoneV == <<"None">>
 
 St(f, v, h) == [fired |-> f, val |-> v, handled |-> h]
@@ -50,39 +60,52 @@ Matchers == (IF WithNoResult THEN {Matcher("noresult", "-")} ELSE {})
             \cup {Matcher("succ", i) : i \in SuccInner} \cup {Matcher("failed", i) : i \in FailInner}
 
 VARIABLES
-    d,      \* the Deferred's current result: [fired, val, handled]
-    cbs,    \* callbacks waiting for it to fire (sequence of kinds), empty once fired
+    d,      \* the Deferred: [fired (has callback/errback been called, and with which kind of result), val, handled]
+    cbs,    \* callbacks not yet run (sequence of kinds)
+    paused, \* d.pause() calls not yet undone
+    wait,   \* the chain waits for the inner Deferred a "chain" callback returned
+    nchain, \* "chain" callbacks added so far
     seen,   \* what the recording user callbacks have been called with, in order
     n,      \* actions so far
     done,   \* extract_result was called: behaviour over
-    last,   \* the last action: [a, arg, res, pre] (pre = the Deferred before it)
+    last,   \* the last action: [a, arg, res, pre] (pre = what was available before it)
     hist    \* observation log for export
 
-vars == <<d, cbs, seen, n, done, last, hist>>
+vars == <<d, cbs, paused, wait, nchain, seen, n, done, last, hist>>
 
 -----------------------------------------------------------------------------
-(* Twisted: one callback applied to the current result                      *)
+(* Twisted: Deferred._runCallbacks                                           *)
 
 See(by, st) == [by |-> by, fired |-> st.fired, val |-> st.val]
 
-Apply(cb, st, sn) ==
-    CASE cb = "pass"  -> [st |-> st, seen |-> Append(sn, See("pass", st))]            \* addBoth: record, return it
-      [] cb = "trans" -> IF st.fired = "ok"                                             \* addCallback: record, wrap
-                         THEN [st |-> St("ok", <<"t">> \o st.val, TRUE), seen |-> Append(sn, See("trans", st))]
-                         ELSE [st |-> st, seen |-> sn]
-      [] cb = "rec"   -> [st |-> St("ok", NoneV, TRUE), seen |-> Append(sn, See("rec", st))] \* addBoth: record, return None
-      [] cb = "cap"   -> [st |-> st, seen |-> sn]                                       \* on_deferred_result's capture pair
-      [] cb = "eat"   -> [st |-> IF st.fired = "err" THEN St("ok", AnyV, TRUE) ELSE st, seen |-> sn]  \* addErrback(lambda _: None)
-      [] cb = "ext"   -> [st |-> St("ok", NoneV, TRUE), seen |-> sn]                    \* extract_result's list.append pair
+\* one callback applied to the current result; cap = what on_deferred_result's capture lists hold
+Apply(cb, st, sn, cap) ==
+    CASE cb = "pass"  -> [st |-> st, seen |-> Append(sn, See("pass", st)), cap |-> cap]            \* addBoth: record, return it
+      [] cb = "trans" -> IF st.fired = "ok"                                                        \* addCallback: record, wrap
+                         THEN [st |-> St("ok", <<"t">> \o st.val, st.handled), seen |-> Append(sn, See("trans", st)), cap |-> cap]
+                         ELSE [st |-> st, seen |-> sn, cap |-> cap]
+      [] cb = "rec"   -> [st |-> St("ok", NoneV, st.handled), seen |-> Append(sn, See("rec", st)), cap |-> cap] \* addBoth: record, return None
+      [] cb = "cap"   -> [st |-> st, seen |-> sn, cap |-> Append(cap, st)]                         \* capture: values.append(value); return value
+      [] cb = "eat"   -> [st |-> IF st.fired = "err" THEN St("ok", AnyV, st.handled) ELSE st, seen |-> sn, cap |-> cap]  \* addErrback(lambda _: None)
+      [] cb = "ext"   -> [st |-> St("ok", NoneV, st.handled), seen |-> sn, cap |-> cap]            \* extract_result's list.append pair
+      [] cb = "chain" -> [st |-> st, seen |-> sn, cap |-> cap]                                    \* addCallback: a failure passes by
 
-RECURSIVE Run(_, _, _)
-Run(q, st, sn) == IF q = <<>> THEN [st |-> st, seen |-> sn]
-                  ELSE LET r == Apply(Head(q), st, sn) IN Run(Tail(q), r.st, r.seen)
+\* run the queued callbacks; stop where a "chain" callback (addCallback) returns an unfired inner Deferred.
+\* When the chain runs to its end Twisted notes whether a Failure is left over (handled).
+RECURSIVE Run(_, _, _, _)
+Run(q, st, sn, cap) ==
+    IF q = <<>> THEN [st |-> [st EXCEPT !.handled = (st.fired # "err")], seen |-> sn, cbs |-> <<>>, wait |-> FALSE, cap |-> cap]
+    ELSE IF Head(q) = "chain" /\ st.fired = "ok"
+         THEN [st |-> st, seen |-> Append(sn, See("chain", st)), cbs |-> Tail(q), wait |-> TRUE, cap |-> cap]
+         ELSE LET r == Apply(Head(q), st, sn, cap) IN Run(Tail(q), r.st, r.seen, r.cap)
 
-\* Deferred.addCallbacks: queue while unfired, run at once otherwise
-AddCb(cb, st, q, sn) ==
-    IF st.fired = "no" THEN [st |-> st, cbs |-> Append(q, cb), seen |-> sn]
-    ELSE LET r == Apply(cb, st, sn) IN [st |-> r.st, cbs |-> q, seen |-> r.seen]
+Blocked(st, p, w) == st.fired = "no" \/ p > 0 \/ w
+
+\* Deferred.addCallbacks / callback() / unpause() / the inner Deferred firing all end in _runCallbacks:
+\* nothing happens while blocked, else the queue is run
+Pump(q, st, p, w, sn) ==
+    IF Blocked(st, p, w) THEN [st |-> st, seen |-> sn, cbs |-> q, wait |-> w, cap |-> <<>>]
+    ELSE Run(q, st, sn, <<>>)
 
 -----------------------------------------------------------------------------
 (* Inner matchers: "match" / "mismatch" / "either" (value not constrained)   *)
@@ -94,77 +117,115 @@ InnerS(i, v) == CASE i = "always" -> "match" [] i = "never" -> "mismatch"
                   [] OTHER -> IF v = AnyV THEN "either" ELSE B(v = EqOf(i))
 InnerF(i, v) == CASE i = "always" -> "match" [] i = "never" -> "mismatch" [] OTHER -> B(v = IsOf(i))
 
-(* MECHANISM of match(): dispatch of on_deferred_result, then the handler of the matcher class *)
-Branch(st) == CASE st.fired = "err" -> "on_failure" [] st.fired = "ok" -> "on_success" [] OTHER -> "on_no_result"
+(* MECHANISM of match(): on_deferred_result looks at its capture lists, then the handler of the matcher class *)
+Branch(cap) == IF cap = <<>> THEN "on_no_result"
+               ELSE IF cap[1].fired = "err" THEN "on_failure" ELSE "on_success"
 
-MechVerdict(m, st) ==
-    LET b == Branch(st) IN
+MechVerdict(m, cap) ==
+    LET b == Branch(cap) IN
     CASE m.k = "noresult" -> (CASE b = "on_no_result" -> "match"                       \* lambda _: None
                                 [] OTHER -> "mismatch")                                 \* _NoResult._got_result
-      [] m.k = "succ"     -> (CASE b = "on_success" -> InnerS(m.i, st.val)              \* self._matcher.match(value)
+      [] m.k = "succ"     -> (CASE b = "on_success" -> InnerS(m.i, cap[1].val)          \* self._matcher.match(value)
                                 [] b = "on_failure" -> "mismatch"                       \* _got_failure (+ eat)
                                 [] OTHER -> "mismatch")                                 \* _got_no_result
-      [] m.k = "failed"   -> (CASE b = "on_failure" -> InnerF(m.i, st.val)              \* self._matcher.match(failure) (+ eat)
+      [] m.k = "failed"   -> (CASE b = "on_failure" -> InnerF(m.i, cap[1].val)          \* self._matcher.match(failure) (+ eat)
                                 [] b = "on_success" -> "mismatch"
                                 [] OTHER -> "mismatch")
-MechEats(m, st) == Branch(st) = "on_failure" /\ m.k \in {"succ", "failed"}
+MechEats(m, cap) == Branch(cap) = "on_failure" /\ m.k \in {"succ", "failed"}
 
-(* MEANING: when must m match a Deferred in state st *)
-Means(m, st) ==
-    CASE m.k = "noresult" -> B(st.fired = "no")
-      [] m.k = "succ"     -> IF st.fired # "ok" THEN "mismatch" ELSE InnerS(m.i, st.val)
-      [] m.k = "failed"   -> IF st.fired # "err" THEN "mismatch" ELSE InnerF(m.i, st.val)
+(* MEANING: the result currently available, and when m must match it *)
+Available == ~Blocked(d, paused, wait)
+View == IF Available THEN [fired |-> d.fired, val |-> d.val] ELSE [fired |-> "no", val |-> <<"-">>]
+Means(m, v) ==
+    CASE m.k = "noresult" -> B(v.fired = "no")
+      [] m.k = "succ"     -> IF v.fired # "ok" THEN "mismatch" ELSE InnerS(m.i, v.val)
+      [] m.k = "failed"   -> IF v.fired # "err" THEN "mismatch" ELSE InnerF(m.i, v.val)
 
+\* what match() would see and answer in the current state (the capture pair is attached, nothing else)
+CapNow == Pump(Append(cbs, "cap"), d, paused, wait, seen).cap
 -----------------------------------------------------------------------------
-Init == /\ d = Unfired /\ cbs = <<>> /\ seen = <<>> /\ n = 0 /\ done = FALSE /\ hist = <<>>
-        /\ last = [a |-> "init", arg |-> "-", res |-> "-", pre |-> Unfired]
+Init == /\ d = Unfired /\ cbs = <<>> /\ paused = 0 /\ wait = FALSE /\ nchain = 0
+        /\ seen = <<>> /\ n = 0 /\ done = FALSE /\ hist = <<>>
+        /\ last = [a |-> "init", arg |-> "-", res |-> "-", pre |-> [fired |-> "no", val |-> <<"-">>]]
 
 Log(a, arg, res, pre) ==
     /\ last' = [a |-> a, arg |-> arg, res |-> res, pre |-> pre]
-    /\ hist' = Append(hist, [a |-> a, arg |-> arg, res |-> res, st |-> d',
-                          new |-> SubSeq(seen', Len(seen) + 1, Len(seen'))])
+    /\ hist' = Append(hist, [a |-> a, arg |-> arg, res |-> res, st |-> d', blocked |-> (paused' > 0 \/ wait'),
+                             new |-> SubSeq(seen', Len(seen) + 1, Len(seen'))])
 
 Live == ~done /\ n < MaxLen
 
+Set(r) == d' = r.st /\ cbs' = r.cbs /\ wait' = r.wait /\ seen' = r.seen
+
 Fire(v) ==
     /\ Live /\ d.fired = "no"
-    /\ LET r == Run(cbs, St("ok", v, TRUE), seen) IN d' = r.st /\ seen' = r.seen
-    /\ cbs' = <<>> /\ n' = n + 1 /\ UNCHANGED done
-    /\ Log("fire", v, "-", d)
+    /\ Set(Pump(cbs, St("ok", v, d.handled), paused, wait, seen))
+    /\ n' = n + 1 /\ UNCHANGED <<done, paused, nchain>>
+    /\ Log("fire", v, "-", View)
 
 Fail(e) ==
     /\ Live /\ d.fired = "no"
-    /\ LET r == Run(cbs, St("err", e, FALSE), seen) IN d' = r.st /\ seen' = r.seen
-    /\ cbs' = <<>> /\ n' = n + 1 /\ UNCHANGED done
-    /\ Log("fail", e, "-", d)
+    /\ Set(Pump(cbs, St("err", e, d.handled), paused, wait, seen))
+    /\ n' = n + 1 /\ UNCHANGED <<done, paused, nchain>>
+    /\ Log("fail", e, "-", View)
 
 AddCallback(k) ==
-    /\ Live
-    /\ LET r == AddCb(k, d, cbs, seen) IN d' = r.st /\ cbs' = r.cbs /\ seen' = r.seen
-    /\ n' = n + 1 /\ UNCHANGED done
-    /\ Log("add", k, "-", d)
+    /\ Live /\ (k = "chain" => nchain < MaxChain)
+    /\ Set(Pump(Append(cbs, k), d, paused, wait, seen))
+    /\ nchain' = IF k = "chain" THEN nchain + 1 ELSE nchain
+    /\ n' = n + 1 /\ UNCHANGED <<done, paused>>
+    /\ Log("add", k, "-", View)
+
+Pause ==
+    /\ Live /\ paused < MaxPause
+    /\ paused' = paused + 1
+    /\ n' = n + 1 /\ UNCHANGED <<d, cbs, wait, seen, done, nchain>>
+    /\ Log("pause", "-", "-", View)
+
+Unpause ==
+    /\ Live /\ paused > 0
+    /\ paused' = paused - 1
+    /\ Set(Pump(cbs, d, paused - 1, wait, seen))
+    /\ n' = n + 1 /\ UNCHANGED <<done, nchain>>
+    /\ Log("unpause", "-", "-", View)
+
+\* the inner Deferred fires: its result becomes the waiting Deferred's, which goes on with its chain
+InnerFires(v) ==
+    /\ Live /\ wait
+    /\ Set(Pump(cbs, St("ok", v, d.handled), paused, FALSE, seen))
+    /\ n' = n + 1 /\ UNCHANGED <<done, paused, nchain>>
+    /\ Log("fireinner", v, "-", View)
+
+InnerFails(e) ==
+    /\ Live /\ wait
+    /\ Set(Pump(cbs, St("err", e, d.handled), paused, FALSE, seen))
+    /\ n' = n + 1 /\ UNCHANGED <<done, paused, nchain>>
+    /\ Log("failinner", e, "-", View)
 
 Match(m) ==
     /\ Live
-    /\ LET r1 == AddCb("cap", d, cbs, seen)                     \* on_deferred_result: deferred.addCallbacks(capture, capture)
-           r2 == IF MechEats(m, d) THEN AddCb("eat", r1.st, r1.cbs, r1.seen) ELSE r1
-       IN d' = r2.st /\ cbs' = r2.cbs /\ seen' = r2.seen
-    /\ n' = n + 1 /\ UNCHANGED done
-    /\ Log("match", m, MechVerdict(m, d), d)
+    /\ n' = n + 1 /\ UNCHANGED <<done, paused, nchain>>
+    /\ LET r1 == Pump(Append(cbs, "cap"), d, paused, wait, seen)  \* on_deferred_result: deferred.addCallbacks(capture, capture)
+           r2 == IF MechEats(m, r1.cap) THEN Pump(Append(r1.cbs, "eat"), r1.st, paused, r1.wait, r1.seen) ELSE r1
+       IN /\ Set(r2)
+          /\ Log("match", m, MechVerdict(m, r1.cap), View)
 
 \* extract_result: addCallbacks(successes.append, failures.append), then look at the lists
 Extract ==
     /\ Live /\ WithExtract
-    /\ LET r == AddCb("ext", d, cbs, seen) IN d' = r.st /\ cbs' = r.cbs /\ seen' = r.seen
-    /\ n' = n + 1 /\ done' = TRUE
-    /\ Log("extract", "-",
-           CASE d.fired = "ok" -> [r |-> "returns", val |-> d.val]          \* len(successes) == 1
-             [] d.fired = "err" -> [r |-> "raises", val |-> d.val]          \* failures[0].raiseException()
-             [] OTHER -> [r |-> "raises", val |-> <<"DeferredNotFired">>],
-           d)
+    /\ n' = n + 1 /\ done' = TRUE /\ UNCHANGED <<paused, nchain>>
+    /\ LET r0 == Pump(Append(cbs, "cap"), d, paused, wait, seen)   \* what the two lists hold afterwards
+           r  == Pump(Append(cbs, "ext"), d, paused, wait, seen)
+       IN /\ Set(r)
+          /\ Log("extract", "-",
+                 CASE r0.cap = <<>> -> [r |-> "raises", val |-> <<"DeferredNotFired">>]
+                   [] r0.cap[1].fired = "ok" -> [r |-> "returns", val |-> r0.cap[1].val]     \* len(successes) == 1
+                   [] OTHER -> [r |-> "raises", val |-> r0.cap[1].val],                       \* failures[0].raiseException()
+                 View)
 
 Next == (\E v \in Values : Fire(v)) \/ (\E e \in Excs : Fail(e)) \/ (\E k \in CbKinds : AddCallback(k))
-        \/ (\E m \in Matchers : Match(m)) \/ Extract
+        \/ (\E m \in Matchers : Match(m)) \/ Extract \/ Pause \/ Unpause
+        \/ (\E v \in InnerValues : InnerFires(v)) \/ (\E e \in InnerExcs : InnerFails(e))
 
 Spec == Init /\ [][Next]_vars
 
@@ -175,18 +236,18 @@ NoRes == Matcher("noresult", "-")
 SuccAlways == Matcher("succ", "always")
 FailedAlways == Matcher("failed", "always")
 
-\* exactly one of has_no_result(), succeeded(Always()), failed(Always()) matches, selected by the state
+\* exactly one of has_no_result(), succeeded(Always()), failed(Always()) matches, selected by what is AVAILABLE
 Trichotomy ==
-    LET v == [m \in {NoRes, SuccAlways, FailedAlways} |-> MechVerdict(m, d)] IN
+    LET v == [m \in {NoRes, SuccAlways, FailedAlways} |-> MechVerdict(m, CapNow)] IN
     /\ Cardinality({m \in DOMAIN v : v[m] = "match"}) = 1
-    /\ v[NoRes] = "match" <=> d.fired = "no"
-    /\ v[SuccAlways] = "match" <=> d.fired = "ok"
-    /\ v[FailedAlways] = "match" <=> d.fired = "err"
+    /\ v[NoRes] = "match" <=> View.fired = "no"
+    /\ v[SuccAlways] = "match" <=> View.fired = "ok"
+    /\ v[FailedAlways] = "match" <=> View.fired = "err"
 
 \* succeeded(m) / failed(m) match iff in addition m matches the value / Failure
 AllMatchers == {NoRes} \cup {Matcher("succ", i) : i \in {"always", "never", "eqNone", "eqOne", "eqNest"}}
                \cup {Matcher("failed", i) : i \in {"always", "never", "isE1", "isE2"}}
-InnerApplied == \A m \in AllMatchers : MechVerdict(m, d) = Means(m, d)
+InnerApplied == \A m \in AllMatchers : MechVerdict(m, CapNow) = Means(m, View)
 
 Stepped(a) == n' = n + 1 /\ last'.a = a
 
@@ -197,28 +258,31 @@ ExtractRight ==
                       [] last.pre.fired = "err" -> [r |-> "raises", val |-> last.pre.val]
                       [] OTHER -> [r |-> "raises", val |-> <<"DeferredNotFired">>])
 
-\* matching never fires a Deferred
-NeverFires == [][Stepped("match") => (d.fired = "no" => d'.fired = "no")]_vars
+\* matching never fires a Deferred (nor makes a result available that was not)
+NeverFires == [][Stepped("match") => /\ (d.fired = "no" => d'.fired = "no")
+                                     /\ paused' = paused /\ wait' = wait]_vars
 
-\* an unfired Deferred stays as it was for whoever fires it later (the capture callbacks are transparent:
-\* CapsTransparent), a successful result is intact for later callbacks
+\* a Deferred without an available result stays as it was for whoever fires / unpauses it later (the capture
+\* callbacks are transparent: CapsTransparent), a successful result is intact for later callbacks
+Strip(q) == SelectSeq(q, LAMBDA c : c # "cap")
 CapsTransparent ==
     \A v \in Values \cup Excs :
-        LET st0 == IF v \in Values THEN St("ok", v, TRUE) ELSE St("err", v, FALSE)
-            plain == SelectSeq(cbs, LAMBDA c : c # "cap")
-        IN Run(cbs, st0, <<>>) = Run(plain, st0, <<>>)
+        LET st0 == IF v \in Values THEN St("ok", v, TRUE) ELSE St("err", v, TRUE)
+            a == Run(cbs, st0, <<>>, <<>>)
+            b == Run(Strip(cbs), st0, <<>>, <<>>)
+        IN a.st = b.st /\ a.seen = b.seen /\ a.wait = b.wait /\ Strip(a.cbs) = b.cbs
 Preserved ==
-    [][Stepped("match") => /\ (d.fired = "no" => d' = d /\ seen' = seen)
-                           /\ (d.fired = "ok" => d' = d /\ seen' = seen)]_vars
+    [][Stepped("match") => /\ (~Available => d' = d /\ seen' = seen /\ Strip(cbs') = Strip(cbs))
+                           /\ (Available /\ d.fired = "ok" => d' = d /\ seen' = seen /\ cbs' = cbs)]_vars
 
 \* a failure inspected by succeeded() or failed() is marked handled (so it is not logged as unhandled)
 HandledAfter ==
-    [][(Stepped("match") /\ d.fired = "err" /\ last'.arg.k \in {"succ", "failed"}) => d'.handled]_vars
+    [][(Stepped("match") /\ Available /\ d.fired = "err" /\ last'.arg.k \in {"succ", "failed"}) => d'.handled]_vars
 
-\* Twisted's definition of the flag (sanity of the model)
-HandledIffNotErr == d.handled <=> d.fired # "err"
+\* Twisted's definition of the flag, where the chain has run to its end (sanity of the model)
+HandledIffNotErr == Available => (cbs = <<>> /\ (d.handled <=> d.fired # "err"))
 
 -----------------------------------------------------------------------------
 ExportC == (n >= 1) => PrintT(<<"EXPORT", ToJson(hist)>>)
-ViewNoHist == <<d, cbs, seen, n, done, last>>
+ViewNoHist == <<d, cbs, paused, wait, nchain, seen, n, done, last>>
 =============================================================================
